@@ -25,7 +25,7 @@ func newTape(name string, seed uint64, salt uint64) *Tape {
 	return &Tape{Name: name, rng: rand.New(rand.NewPCG(seed, salt))}
 }
 
-func replayTape(name string, vals []uint32) *Tape {
+func ReplayTape(name string, vals []uint32) *Tape {
 	return &Tape{Name: name, Vals: vals, replay: true}
 }
 
@@ -132,10 +132,10 @@ func (t *Tapes) Data() TapeData {
 
 func ReplayTapes(d TapeData) *Tapes {
 	return &Tapes{
-		Plan:  replayTape("plan", d.Plan),
-		Sched: replayTape("sched", d.Sched),
-		Fault: replayTape("fault", d.Fault),
-		Crash: replayTape("crash", d.Crash),
+		Plan:  ReplayTape("plan", d.Plan),
+		Sched: ReplayTape("sched", d.Sched),
+		Fault: ReplayTape("fault", d.Fault),
+		Crash: ReplayTape("crash", d.Crash),
 	}
 }
 
